@@ -14,6 +14,9 @@
 (* scribbles on the entries it was handed - the caller's own copies): by   *)
 (* the property it changes nothing, so the queries after it are judged by  *)
 (* the same FindOK against the same `appended`.                            *)
+(* Appends, queries and readers come in ANY order within one trace = one    *)
+(* process life (module state of the real code lives on); a "reopen" line  *)
+(* is a restart of the process (module state gone, files read back).       *)
 (* TLC evaluates the property level of Chronicle on every line (CLAUSE     *)
 (* rows, never aborting) and compares with the implementation-shaped       *)
 (* operators (DRIFT rows, not an alarm).                                   *)
@@ -63,7 +66,7 @@ Step(r) ==
            /\ bad' = IF why' = {} THEN {} ELSE {IF r.ev = "find" THEN "C18.FindOK" ELSE "C18.ApiFindOK"}
            /\ drift' = LET m == IF r.ev = "find" THEN FindImpl(journal, q') ELSE ApiImpl(journal, q') IN
                        IF r.obs.err # "" THEN m # <<0>> ELSE m # res'
-      [] r.ev = "stats" ->   \* another reader ran (files read back after it): nothing may have changed
+      [] r.ev \in {"stats", "reopen"} ->   \* another reader ran / the process was restarted (files read back after it): nothing may have changed
            /\ journal' = JOf(r.st.files)
            /\ UNCHANGED appended
            /\ kind' = "stats" /\ q' = NoQ /\ res' = <<>>
